@@ -69,7 +69,7 @@ def make_prior(kind="default", poly_trend=1, n_offsets=0, sigma_K0=30.0, P0_days
     return out
 
 
-def make_data(n=5, layout="short", err="hetero", unit="km/s", t_ref=None, seed=0, n_surveys=1, mixed_units=False, t_ref_scale="tcb"):
+def make_data(n=5, layout="short", err="hetero", unit="km/s", t_ref=None, seed=0, n_surveys=1, mixed_units=False, t_ref_scale="tcb", interleave=False):
     """Returns (data or list of data, plain dict t, y, sig [km/s], t_ref, labels)."""
     import astropy.units as u
     from astropy.time import Time
@@ -109,6 +109,9 @@ def make_data(n=5, layout="short", err="hetero", unit="km/s", t_ref=None, seed=0
         data = []
         for k in range(n_surveys):
             sl = slice(bounds[k], bounds[k + 1])
+            if interleave:
+                # surveys interleaved in time: survey k owns epochs k, k+S, k+2S, ...
+                sl = np.arange(n)[k::n_surveys]
             labels[sl] = k
             if mixed_units and k % 2 == 1:
                 # this survey is delivered in another (equivalent) unit than the first one; errors in yet another
